@@ -330,6 +330,26 @@ def rule_winalias_bounds(ctx, prop: str) -> RuleResult:
                                 f"callee effects were renamed to the argument's own name (`bind[...] = {actual}`; `eff.subst(bind)`) but are translated under `{ast.unparse(key)}` only: "
                                 f"for `w = y[2:10]; callee(w)` the accesses stay on `w` and are never compared with the extent of `y` (out-of-bounds call accepted)")
                     )
+    # every translation is a step of a FOLD over the windowed names: `X = translate_eff(X, ...)`.  Fed from
+    # any other name (a copy taken before the loop), each windowed argument's translation starts over and
+    # only the LAST one's survives — accesses through the earlier window arguments stay on a formal's name
+    # and are never compared with a buffer extent: copy4(x[4:8], y[0:4]) with x: f32[6] is accepted
+    n_thread = 0
+    for fn in (f for f in ix.all_funcs() if f.file == B):
+        for n in fn.body_nodes():
+            if isinstance(n, ast.Call) and last_name(n) == "translate_eff" and n.args and fn.qualname != "CheckBounds.translate_eff":
+                par_ = parent(n)
+                res.instances += 1
+                res.nontrivial += 1
+                n_thread += 1
+                ok = isinstance(par_, ast.Assign) and len(par_.targets) == 1 and isinstance(par_.targets[0], ast.Name) and isinstance(n.args[0], ast.Name) and par_.targets[0].id == n.args[0].id
+                res.ob(ok)
+                if not ok:
+                    res.add(Finding("WINALIAS", B, n.lineno, fn.qualname, "translate_eff-thread",
+                                    f"`{ast.unparse(par_)[:80]}`: the translated effect is not threaded (`X = translate_eff(X, ...)`): inside the loop over the windowed arguments every translation restarts from "
+                                    f"`{ast.unparse(n.args[0])}` and only the last argument's survives — out-of-bounds accesses through an earlier window argument are never checked"))
+    if n_thread < 3:
+        raise AnalysisError(f"WINALIAS: expected >= 3 translate_eff call sites in boundscheck.py, found {n_thread}")
     # the translation itself must follow chains of windows (while isinstance(typ, T.Window))
     t = m.func("CheckBounds.translate_eff")
     res.instances += 1
